@@ -418,34 +418,34 @@ Section BRIDGE.
   Definition lft_stage (t : lft) : stage := PLineFilter (fst (fst t)) (snd (fst t)) (snd t).
   Definition lft_ok (line : string) (t : lft) : bool := line_ok re_match line (fst (fst t)) (snd (fst t)).
 
-  (* a row on which the line text is reachable under both names the line-filter predicates use *)
-  Definition line_row (r : row) (line : string) : Prop :=
-    lookup "samples.string" r = Some (VStr line) /\ lookup "string" r = Some (VStr line).
+  (* a row on which the line text is reachable under the name every line-filter predicate uses (the stored column of the
+     source, never the alias `string` of the select: since the repair regex-line-filter-reads-alias the match() form too) *)
+  Definition line_row (r : row) (line : string) : Prop := lookup "samples.string" r = Some (VStr line).
   Lemma ev_do_like_like val r g line : line_row r line ->
     EV (do_like "like" val) (r :: g) = Some (vbool (contains val line)).
   Proof.
-    intros [H1 _]. unfold do_like, Eq, like_pattern. cbn [ev String.eqb Ascii.eqb Bool.eqb]. rewrite H1.
+    intros H1. unfold do_like, Eq, like_pattern. cbn [ev String.eqb Ascii.eqb Bool.eqb]. rewrite H1.
     rewrite str_fn2_str, vcmp_bool_1. change (esc_like val) with (map_string esc_like_c val).
     now rewrite like_contains.
   Qed.
   Lemma ev_do_like_notlike val r g line : line_row r line ->
     EV (do_like "notLike" val) (r :: g) = Some (vbool (negb (contains val line))).
   Proof.
-    intros [H1 _]. unfold do_like, Eq, like_pattern. cbn [ev String.eqb Ascii.eqb Bool.eqb]. rewrite H1.
+    intros H1. unfold do_like, Eq, like_pattern. cbn [ev String.eqb Ascii.eqb Bool.eqb]. rewrite H1.
     rewrite str_fn2_str, vcmp_bool_1. change (esc_like val) with (map_string esc_like_c val).
     now rewrite like_contains.
   Qed.
   Lemma ev_do_like_ilike val r g line : line_row r line ->
     EV (do_like "ilike" val) (r :: g) = Some (vbool (contains (to_lower val) (to_lower line))).
   Proof.
-    intros [H1 _]. unfold do_like, Eq, like_pattern. cbn [ev String.eqb Ascii.eqb Bool.eqb]. rewrite H1.
+    intros H1. unfold do_like, Eq, like_pattern. cbn [ev String.eqb Ascii.eqb Bool.eqb]. rewrite H1.
     rewrite str_fn2_str, vcmp_bool_1. change (esc_like val) with (map_string esc_like_c val).
     now rewrite ilike_contains.
   Qed.
   Lemma ev_do_like_notilike val r g line : line_row r line ->
     EV (do_like "notILike" val) (r :: g) = Some (vbool (negb (contains (to_lower val) (to_lower line)))).
   Proof.
-    intros [H1 _]. unfold do_like, Eq, like_pattern. cbn [ev String.eqb Ascii.eqb Bool.eqb]. rewrite H1.
+    intros H1. unfold do_like, Eq, like_pattern. cbn [ev String.eqb Ascii.eqb Bool.eqb]. rewrite H1.
     rewrite str_fn2_str, vcmp_bool_1. change (esc_like val) with (map_string esc_like_c val).
     now rewrite ilike_contains.
   Qed.
@@ -460,11 +460,11 @@ Section BRIDGE.
     - now apply ev_do_like_notlike.
     - destruct rl as [[lit ins]|].
       + rewrite Ho. destruct ins; [now apply ev_do_like_ilike|now apply ev_do_like_like].
-      + destruct Hr as [_ H2]. unfold Eq, sql_match. cbn [ev String.eqb Ascii.eqb Bool.eqb]. rewrite H2.
+      + pose proof Hr as H2. unfold Eq, sql_match. cbn [ev String.eqb Ascii.eqb Bool.eqb]. rewrite H2.
         now rewrite str_fn2_str, vcmp_bool_1.
     - destruct rl as [[lit ins]|].
       + rewrite Ho. destruct ins; [now apply ev_do_like_notilike|now apply ev_do_like_notlike].
-      + destruct Hr as [_ H2]. unfold Eq, sql_match. cbn [ev String.eqb Ascii.eqb Bool.eqb]. rewrite H2.
+      + pose proof Hr as H2. unfold Eq, sql_match. cbn [ev String.eqb Ascii.eqb Bool.eqb]. rewrite H2.
         now rewrite str_fn2_str, vcmp_bool_0.
   Qed.
 
